@@ -59,8 +59,9 @@ def probe(seed, n):
         count = rnd.randint(1, 40); s = rnd.choice([0, 0, 1, rnd.randint(0, 10**6), rnd.randint(0, 10**6)])      # 0 is a seed like any other
         fixed = {}
         if rnd.random() < .4:
-            i = rnd.randrange(len(names))
-            fixed[names[i]] = {"int": 7, "str": "zz", "bool": True}[types[i]] if rnd.random() < .5 else {"int": st.integers(100, 105), "str": st.sampled_from(["q", "qq"]), "bool": st.just(False)}[types[i]]
+            # one or several explicit arguments, plain values and strategies in any order
+            for i in rnd.sample(range(len(names)), rnd.randint(1, len(names))):
+                fixed[names[i]] = {"int": 7 + i, "str": "zz" + "z" * i, "bool": True}[types[i]] if rnd.random() < .5 else {"int": st.integers(100, 105), "str": st.sampled_from(["q", "qq"]), "bool": st.just(False)}[types[i]]
         def collect():
             return [(c.args, tuple(sorted(c.kwargs.items()))) for c in deal.cases(f, count=count, seed=s, kwargs=dict(fixed), check_types=False)]
         try:
